@@ -11,10 +11,11 @@ PROPS = {
         'assumptions': ['request targets are valid UTF-8 (gRPC rejects other proto3 strings); the byte-level model is exact for all byte strings anyway'],
     },
     'C08': {
-        'translated': ['matches'],
+        'translated': ['matches', 'Check', 'allow', 'deny', 'mustTriggerCheck'],
         'theorems': ['no_hidden_state', 'check_eq_judge', 'first_match_wins', 'no_criterion_matches', 'criterion_semantics',
                      'configured_name_case_irrelevant', 'all_must_allow', 'stops_at_first_denial',
-                     'handler_error_no_verdict', 'default_deny', 'untriggered_allowed', 'code_matches_spec'],
+                     'handler_error_no_verdict', 'default_deny', 'untriggered_allowed', 'code_matches_spec',
+                     'code_check_eq_spec', 'code_untriggered_allowed', 'code_first_match_wins', 'code_default_deny', 'code_stops_at_first_denial', 'code_all_allow'],
         'trusted': ['filters are abstract functions Resp -> Option Resp in the theorems; the differential run uses mock filters',
                     'configured header names are ASCII (strings.ToLower is modelled on ASCII)'],
         'assumptions': ['header maps have unique keys (Go map)'],
@@ -69,8 +70,8 @@ PROPS = {
         'trusted': ['hand-written interaction-tree model of Process/redirectToIDP/retrieveTokens/refreshToken (AuthModel/Oidc/Handler.lean), tied to the code by the differential run (response + ordered action trace per request line)', 'oracles: jwt parsing and claims (jwx), JWS verification (checked against an independent stdlib RSA verification in the harness), SHA-256/base64url; url.Parse of the callback URI', 'response bodies of library errors returned by Check are outside the model (scanned by the monitor)'],
     },
     'C15': {
-        'translated': ['GetPathQueryFragment', 'stringMatch', 'matchTriggerRule', 'mustTriggerCheck', 'matches'],
-        'theorems': ['no_hidden_state', 'verdict_wellformed', 'nonstring_nonce_is_invalid', 'splitter_in_bounds', 'no_unexpected_type_assertions', 'no_unexpected_index_or_slice', 'no_explicit_panics', 'code_trigger_path_never_panics'],
+        'translated': ['GetPathQueryFragment', 'stringMatch', 'matchTriggerRule', 'mustTriggerCheck', 'matches', 'Check'],
+        'theorems': ['no_hidden_state', 'verdict_wellformed', 'nonstring_nonce_is_invalid', 'splitter_in_bounds', 'no_unexpected_type_assertions', 'no_unexpected_index_or_slice', 'no_explicit_panics', 'code_trigger_path_never_panics', 'code_check_never_panics'],
         'trusted': ['hand-written interaction-tree model of Process/redirectToIDP/retrieveTokens/refreshToken (AuthModel/Oidc/Handler.lean), tied to the code by the differential run (response + ordered action trace per request line)', 'oracles: jwt parsing and claims (jwx), JWS verification (checked against an independent stdlib RSA verification in the harness), SHA-256/base64url; url.Parse of the callback URI', 'library code (jwx, encoding/json, url.ParseQuery, go-redis) is sampled by the differential run, not proved'],
     },
     'C03': {
